@@ -507,6 +507,18 @@ func prop(c Case) error {
 	if len(c.Data) > 1<<17 && c.Huge == nil {
 		return nil
 	}
+	// the input is a window of a longer buffer (a row of a result set, a record of a
+	// file), at one of the eight offsets relative to a machine word, with other bytes
+	// behind it: where its numbers fall in memory is not the sender's concern
+	{
+		off := (len(c.Data)*7 + int(c.Limits[0]&3)) % 8
+		buf := make([]byte, off+len(c.Data)+9)
+		for i := range buf {
+			buf[i] = 0xA5
+		}
+		copy(buf[off:], c.Data)
+		c.Data = buf[off : off+len(c.Data) : off+len(c.Data)]
+	}
 	if !executable(c) {
 		ev.Default.Count("skipped_unbacked_count_with_limit_disabled", 1)
 		return nil
